@@ -38,6 +38,7 @@ class State:
         self.presets0 = {k: dict(v) for k, v in presets0.items()}
         self.cur = dict(presets0["default"])
         self.passed = None      # the dict object given to the last accepted set()
+        self.alpha_dirty = False  # a caller mutated a returned alphabet since the last accepted set()
         self.problems = []      # (text, condition) - condition True/SymBool means "violated"
         self.log = []
 
@@ -59,6 +60,7 @@ def apply_op(api, st, op):
             else:
                 st.cur = dict(st.presets0[op["name"]])
                 st.passed = None
+                st.alpha_dirty = False
         except ValueError:
             if op["name"] in PRESETS:
                 st.problem("set(%r) was rejected" % op["name"])
@@ -76,6 +78,7 @@ def apply_op(api, st, op):
                 st.problem("set accepted a negative capacity for %s" % k, v < 0)
             st.cur = dict(d)
             st.passed = d
+            st.alpha_dirty = False
         else:
             # rejection is only legitimate if some value is negative
             legit = False
@@ -115,6 +118,7 @@ def apply_op(api, st, op):
                 st.problem("get_preset(%r) raised" % op["name"])
     elif kind == "alphabet_mutate":
         a = api.get_alphabet()
+        st.alpha_dirty = True
         a.add("[Zz]")
         a.discard("[Ring1]")
         a.discard("[=N]")
@@ -157,6 +161,8 @@ def observe(api, st, alphabet=True):
         a2 = api.get_alphabet()
         if a is a2:
             st.problem("get_semantic_robust_alphabet() returned the same object twice (not a private copy)")
+            if st.alpha_dirty:
+                return  # the content of an aliased, caller-mutated set is a consequence of that one defect
         expect_atoms = {}
         for k, v in st.cur.items():
             if k == "?":
